@@ -24,6 +24,9 @@ MACRO_DEFS = ['-DFLATCC_ALLOC=fi_malloc', '-DFLATCC_CALLOC=fi_calloc', '-DFLATCC
 
 def classify_crash(txt):
     if 'create_cached_vtable' in txt and 'use-after-free' in txt: return 'vtable-cache-uaf'
+    if 'create_cached_vtable' in txt: return 'cached-vtable-minus-one'      # a descriptor left half initialised by the swallowed vb failure
+    if 'json_printer_init_dynamic_buffer' in txt: return 'printer-init-null-arith'
+    if '_clone' in txt or 'as_root' in txt or 'flatbuffers_buffer_end' in txt: return 'generated-call-continues-after-failure'
     if 'union_type_vector' in txt or ('json_parser' in txt and 'memcpy' in txt): return 'json-user-frame-alloc-unchecked'
     m = re.search(r'ERROR: (\S+): (\S+)', txt)
     f = re.search(r'in (flatcc_\w+|\w+_parse_json\w*)', txt)
@@ -60,14 +63,14 @@ def run(ctx):
 
     # ---------------------------------------------------------------- scenario corpus: (name, guarded ops, model?)
     scen = []
-    for name, s in refs:
-        scen.append(('build:' + name, s.ops, True))
+    for i, (name, s) in enumerate(refs):
+        scen.append(('build:%s%d' % (name, i), s.ops, True))
     g = Gen(random.Random(5), max_depth=4)
-    nb = 10 if ctx.thorough else 3
+    nb = 40 if ctx.thorough else 3
     for k in range(nb):
         scen.append(('build:random%d' % k, g.build(root='table').ops, True))
     gh = Gen(random.Random(6), harness_only=True, max_depth=4)
-    for k in range(6 if ctx.thorough else 2):
+    for k in range(20 if ctx.thorough else 2):
         scen.append(('build:unions%d' % k, gh.build(root='table').ops, False))
     scen.append(('build:user_frames', ['sb:0:0:0', 'st:3', 'uf:10', 'uf:300', 'ta:0:4:4:01000000', 'uf:5000', 'ux', 'ux', 'ux', 'et', 'eb:$9'], True))
     deep = ['sb:0:0:0'] + ['st:1'] * 20
@@ -78,6 +81,9 @@ def run(ctx):
     jdocs = docs if ctx.thorough else [docs[1], docs[3], docs[5], docs[6]]
     for i, d in enumerate(jdocs):
         scen.append(('json:doc%d' % i, ['jp:%s:0' % hx(d.encode())], False))
+    many = 400
+    scen.append(('json:long_union_vector', ['jp:%s:0' % hx(('{"uv_type":[' + ','.join(['"NONE"'] * many) + '],"uv":[' + ','.join(['null'] * many) + ']}').encode())], False))
+    scen.append(('json:long_union_vector_AB', ['jp:%s:0' % hx(('{"uv_type":[' + ','.join(['"A"', '"B"'] * 60) + '],"uv":[' + ','.join(['{"a":1}', '{"b":[1]}'] * 60) + ']}').encode())], False))
     # clone (with refmap) and print need a finished buffer: take it from an unarmed parse
     rc, fb, err = H.run(['cfg:0:0 jp:%s:0 fin' % hx(docs[5].encode())])
     buf_hex = fb[0].split()[-1] if fb else '-'
@@ -168,7 +174,9 @@ def run(ctx):
             benign = name.startswith('clone') or name.startswith('refmap')     # a refmap that cannot grow only loses sharing (documented: insert returns not_found)
             if not benign or mech != 'macro':
                 nsw += 1
-                key = 'cached-vtable-minus-one' if ('et' in [x.split(':')[0] for x in toks]) and mech != 'emit-callback' else 'failure-swallowed:' + name.split(':')[0]
+                if name.startswith('clone'): key = 'generated-call-continues-after-failure'
+                elif ('et' in [x.split(':')[0] for x in toks]) and mech != 'emit-callback': key = 'cached-vtable-minus-one'
+                else: key = 'failure-swallowed:' + name.split(':')[0]
                 ctx.violation(key, 'scenario %s: the %s was not reported by any call of the build (all calls returned success)' % (name, tag),
                               {'harness_line': l, 'scenario': name, 'mechanism': mech, 'k': k, 'repeated': rp, 'reply': ' '.join(t[:60])})
         fin = t[-3]
